@@ -123,3 +123,35 @@ def check_genimpls(invocations):
             out.append(dict(kind='correspondence', request=invocations[i], impl=e[:4000], model=m[:4000],
                             oracle='corr:hook/genimpls: the helper impls the macro generates and the Coq model (Gen.gen_helper_impls) disagree'))
     return len(idx), out
+
+
+def _norm_main(s):
+    """main impls with the generic parameter list as a set (its order is the indexing order of the
+    pruning pass, which is not modelled and is irrelevant to rustc)"""
+    from . import sexp2coq as sx
+    t = sx.parse(s)
+    if t[0] != 'MainImpls':
+        return s
+    return [(im[1], tuple(sorted(sx.show(x) for x in im[2][0][2]))) + tuple(sx.show(k) for k in im[2][1:]) for im in t[2]]
+
+
+def check_mainimpls(invocations):
+    """the main impl of every family (hook op mainimpl, items dropped) against the Coq model
+    GenMain.gen_main_render: trait path, self type, where-clause and the set of parameters"""
+    exe_hook = cm.build_hook()
+    exe_model = cm.build_model()
+    reqs = ['mainimpl\t' + inv.replace('\n', ' ') for inv in invocations]
+    resp = cm.run_hook(reqs, exe_hook)
+    mreq, idx = [], []
+    for i, r in enumerate(resp):
+        if r.startswith('(Trait') or r.startswith('(NoTrait'):
+            t, b, g, e = r.split('\t')
+            mreq.append('mainimpl\t%s\t%s' % (t, b)); idx.append(i)
+    mresp = cm.run_model(mreq, exe_model) if mreq else []
+    out = []
+    for i, m in zip(idx, mresp):
+        e = resp[i].split('\t')[3]
+        if _norm_main(m) != _norm_main(e):
+            out.append(dict(kind='correspondence', request=invocations[i], impl=e[:4000], model=m[:4000],
+                            oracle='corr:hook/mainimpl: the main impl the macro generates and the Coq model (GenMain.gen_main_impl) disagree'))
+    return len(idx), out
